@@ -23,11 +23,15 @@ for f in sorted(glob.glob(os.path.join(root, "replays", "*", "fixed-*.json"))):
     d = json.load(open(f))
     by_commit.setdefault(d.get("fixed_by", "?"), []).append(f)
 stale = []
+pending = []
+fails_now = {f: replay_fails(f) for fs in by_commit.values() for f in fs}
+only = [a for a in sys.argv[1:] if not a.startswith('--')]
 for commit, files in by_commit.items():
+    if only and commit not in only: continue
     if not take_out(commit):
         print("cannot take out", commit); restore(); continue
     for f in files:
-        if replay_fails(f):
+        if replay_fails(f) and not fails_now[f]:
             print("ok    ", commit, os.path.relpath(f, root))
         else:
             print("STALE ", commit, os.path.relpath(f, root)); stale.append((commit, f))
@@ -41,13 +45,23 @@ for commit, files in by_commit.items():
                 cands = [c for c in cands if not os.path.basename(c.get("signature","")).startswith("harness")]
                 # prefer the same signature, else a content difference, else the shortest tape
                 cands.sort(key=lambda c: (c["signature"] != d.get("signature"), not c["signature"].startswith(("diff", "class", "trace", "visit", "encode", "differs", "accepted", "lowering", "block")), len(c["tape_hex"])))
-                if cands:
-                    n = cands[0]; n["expect"] = "pass"; n["fixed_by"] = commit
-                    json.dump(n, open(f, "w"), indent=1)
-                    print("       regenerated with signature", n["signature"])
-                else:
+                pending.append((f, commit, cands))
+                if not cands:
                     print("       !! no failing case found with the commit taken out")
     restore()
+    # a regression tape must pass on the current tree: take the first candidate that does
+    for (f, commit2, cands) in pending:
+        for n in cands[:8]:
+            n["expect"] = "pass"; n["fixed_by"] = commit2
+            json.dump(n, open(f + ".tmp", "w"), indent=1)
+            os.replace(f + ".tmp", f + ".cand.json")
+            ok = not replay_fails(f + ".cand.json")
+            os.remove(f + ".cand.json")
+            if ok:
+                json.dump(n, open(f, "w"), indent=1); print("       regenerated", os.path.relpath(f, root), "with signature", n["signature"]); break
+        else:
+            if cands: print("       !! every candidate also fails on the current tree:", f)
+    pending = []
     for f in files:
         if replay_fails(f): print("  !! fails on the current tree:", f)
 print("stale:", len(stale))
